@@ -8,6 +8,7 @@ git -C /repo apply "$patch" || { echo "patch does not apply"; exit 3; }
 ./gv check $prop --tier $tier > /tmp/seedtest.$$.out 2>&1
 rc=$?
 git -C /repo checkout -- .
+git -C /verif checkout -- evidence/$prop.json 2>/dev/null
 grep -E "^(VIOLATION|KNOWN|INCONCLUSIVE|C[0-9]+ )|signature=" /tmp/seedtest.$$.out | cut -c1-300 | head -12
 rm -f /tmp/seedtest.$$.out
 echo "seedtest rc=$rc"
